@@ -151,10 +151,23 @@ pub fn replay(shapes: &[Value], seed: u64, reps: usize, rep: &mut Report, trace:
     // lists of 1-4 games: totality
     for _ in 0 .. (shapes.len() * reps / 4).max(50) {
         let k = rng.gen_range(1 ..= 4);
+        let mut names: Vec<String> = Vec::new();
         let games: Vec<(String, String)> = (0 .. k)
             .map(|_| {
                 let s = &shapes[rng.gen_range(0 .. shapes.len())];
-                let name = name_of(&mut rng, s);
+                // repeated names (the same game twice, a re-release with a year, a mod of an earlier game) exercise the duplicate rules
+                let name = if !names.is_empty() && rng.gen_bool(0.4) {
+                    let prev = names[rng.gen_range(0 .. names.len())].clone();
+                    match rng.gen_range(0 .. 4) {
+                        0 => prev,
+                        1 => format!("{} ({})", prev.split(" (").next().unwrap(), rng.gen_range(2000 ..= 2024u32)),
+                        2 => format!("{} - {}", name_of(&mut rng, s).split(" - ").next().unwrap().split(" (").next().unwrap(), prev.split(" (").next().unwrap()),
+                        _ => format!("{} (edition)", prev.split(" (").next().unwrap()),
+                    }
+                } else {
+                    name_of(&mut rng, s)
+                };
+                names.push(name.clone());
                 // the id the checker itself expects (so that duplicate handling, years and protocols interact), or a wrong one
                 let id = single("zz", &name).ok().and_then(|r| r.last().cloned()).unwrap_or_else(|| "zz".into());
                 (if rng.gen_bool(0.7) { id } else { "other".into() }, name)
